@@ -295,6 +295,36 @@ def step (d : DState) (line : String) : IO DState := do
         out s!"#lay {id} {f.data.length} {f.durable} {joinWith "," (offs.map toString)}"
       | none => pure ()
     return d
+  | "judge" :: v :: l :: c :: pu :: es :: opToks =>
+    -- verdict of the reference log on a call, from an observed state:
+    -- judge <vote> <last> <committed> <purged> <t,i;t,i;...|-> <op...>
+    let ids := if es == "-" then some [] else (es.splitOn ";").mapM parseId
+    match parseOptId v, parseOptId l, parseOptId c, parseOptId pu, ids with
+    | some v, some l, some c, some pu, some ids =>
+      let r : RefLog := { vote := v, last := l, committed := c, purged := pu,
+                          entries := ids.map fun i => (i, []) }
+      let op : Option Op := match opToks with
+        | ["vote", t, n] => match t.toNat?, n.toNat? with
+          | some t, some n => some (.saveVote ⟨t, n⟩)
+          | _, _ => none
+        | "app" :: es => (es.mapM parseEntry).map .append
+        | ["trunc", i] => i.toNat?.map .truncate
+        | ["purge", t, i] => match t.toNat?, i.toNat? with
+          | some t, some i => some (.purge ⟨t, i⟩)
+          | _, _ => none
+        | ["commit", t, i] => match t.toNat?, i.toNat? with
+          | some t, some i => some (.commit ⟨t, i⟩)
+          | _, _ => none
+        | ["ud", b] => (parseOptBytes b).map .saveUserData
+        | _ => none
+      match op with
+      | some op =>
+        match r.call op with
+        | .ok _ => out "judge ok"
+        | .error k => out s!"judge err {showErr k}"
+      | none => out "bad-op"
+    | _, _, _, _, _ => out "bad-op"
+    return d
   | "enc" :: rec =>
     match parseRecord rec with
     | some r => out s!"enc {hexOfBytes (encRecord r)}"
